@@ -18,6 +18,7 @@ Alphabet == CASE Mode = "dna"     -> {"A", "C", "G", "T"}
               [] Mode = "rna"     -> {"A", "C", "G", "U"}
               [] Mode = "iupac"   -> Codes \cup {"U"}
               [] Mode = "nucfull" -> NucAlphabet \cup {"a", "u", "n"}
+              [] Mode = "dnau"    -> {"A", "C", "G", "T", "U", "W", "S", "N"}   \* C05 value clause only, see InDomain
               [] Mode = "protein" -> ProtAlphabet
               [] Mode = "invalid" -> {SubSeq(Printable, i, i) : i \in 1..Len(Printable)} \cup UpperSet \cup LowerSet \cup {"*"}
 TypesTried == IF Mode = "invalid" THEN {"DNA", "RNA", "PROTEIN", "dna", "", "Protein", "XNA"}
@@ -27,7 +28,12 @@ Init == w = <<>>
 Next == \E c \in Alphabet : Len(w) < N /\ w' = Append(w, c)
 Spec == Init /\ [][Next]_w
 
-InDomain(type, circ, ds) == ds /\ type \in {"DNA", "RNA"} => StrandDomain(w, type)
+(* The strand clauses of C04 / C05 (invariance, separation) are stated without U under type DNA: the   *)
+(* complement table sends U to A and A to T, so "the other strand" of a DNA duplex spelled with U is  *)
+(* not a symmetric notion.  C05's VALUE clause (tag + digest of the canonical representative, here    *)
+(* the lesser of the text and its reverse complement as that table gives it) is stated for every      *)
+(* accepted input; mode "dnau" emits those cases, its configurations check no orbit theorem.          *)
+InDomain(type, circ, ds) == Mode = "dnau" \/ (ds /\ type \in {"DNA", "RNA"} => StrandDomain(w, type))
 OneCase(type, circ, ds) ==
     [type |-> type, circ |-> circ, ds |-> ds,
      accept |-> Accepts(w, type, circ, ds),
